@@ -238,4 +238,14 @@ def ucPut (c : Nat) : Bytes :=
     [(0xc0 ||| (c >>> 6)) % 256, 0x80 ||| (c &&& 0x3f)]
   else [c]
 
+/-- `uc_shape(beg, s)` on the code points of the line: the shaped code point of character `k`,
+    `none` when the C returns NULL (not a right-to-left character) -/
+def ucShapeAt (codes : List Nat) (k : Nat) : Option Nat :=
+  let curr := codes.getD k 0
+  if curr == 0 || !ucR2L curr then none
+  else
+    let prev := ((codes.take k).reverse.find? (fun c => !ucAcomb c)).getD 0
+    let next := (((codes.drop (k + 1)) ++ [0]).find? (fun c => !ucAcomb c)).getD 0
+    some (ucCshape curr prev next)
+
 end Neatvi.Uc
